@@ -234,6 +234,15 @@ def run(repo, res, tier):
     res.rule("T4-PROTOCOL", "every class translate_rotate is invoked on defines it", 10)
     res.rule("T5-ASSIGNABLE", "attributes assigned by State.translate_rotate are plain (assignable) in every State subclass", 20)
     res.rule("T6-WRAP", "`orientation + angle` is normalised or AngleInterval arithmetic", 3)
+    res.rule("T7-DERIVED", "spatial data derived from what translate_rotate moves (occupancy sets, initial occupancy, polygons, vertices, spatial index) is refreshed by it", 8)
+    from . import c11
+
+    for cache_, _cls, fk_, verdict_, f_ in c11.verdicts(repo, res, want_fn=lambda fk: fk.fn.name == "translate_rotate"):
+        inst = "%s under %s: %s" % (cache_.name, fk_.name, verdict_)
+        if f_ is None:
+            res.ok("T7-DERIVED", inst)
+        else:
+            res.bad("T7-DERIVED", inst, Finding("T7-DERIVED", f_[0], f_[1], f_[2], "the object's own coordinates move but the stored %s does not: part of the object stays at the old pose" % cache_.name, qualname=fk_.name))
     eff = Effects(repo)
 
     # ------------------------------------------------------------ T1
